@@ -162,3 +162,17 @@ def _():
     with_opt = impl.session(model).run(None, feeds)[0]
     without = impl.session(model, optimise=False).run(None, feeds)[0]
     return y.shape == (0,) and without.shape == (0,) and with_opt.shape != (0,)
+
+
+# ---------------------------------------------------------------- C01: the same onnxruntime optimiser defect reached through an assignment
+@witness("C01", "setitem/export-or-run-raises-only-with-onnxruntime-graph-optimizations")
+def _():
+    from . import impl
+    i0 = ndx.array(shape=(1,), dtype=ndx.int32)
+    s0 = ndx.reshape(i0, (1, -1))
+    y = s0.copy()
+    y[::2, 1:] = s0          # an empty selection: the (1, 1) update is expanded to shape (1, 0)
+    model = ndx.build({"i0": i0}, {"y": y})
+    feeds = {"i0": np.array([5], dtype=np.int32)}
+    ok_without = impl.session(model, optimise=False).run(None, feeds)[0].tolist() == [[5]]
+    return ok_without and _raises(lambda: impl.session(model).run(None, feeds))
